@@ -877,6 +877,33 @@ def corpus_cases(prop: str, tier: str) -> List[Dict[str, Any]]:
     return out
 
 
+def scale_cases(prop: str, tier: str) -> List[Dict[str, Any]]:
+    """Inputs far beyond the sizes of examples and tests, built programmatically (fixed cases: the property's obligations are the same at every size).
+    C04: some five hundred object types chained through unions, with the operation builder switched on (every reachable type gets builder classes).
+    C09: four dozen input types each referring to two dozen others - over a thousand references - under pruning, reached from one variable."""
+    out: List[Dict[str, Any]] = []
+    if prop == "C04":
+        n = 520
+        parts = ["type Query {\n  start: T0\n  leaf: Leaf\n}", "type Leaf {\n  id: ID!\n}"]
+        for i in range(n):
+            nxt = "T%d" % (i + 1) if i + 1 < n else "Leaf"
+            parts.append("type T%d {\n  id: ID!\n  label%d: String\n  next: U%d\n}" % (i, i, i))
+            parts.append("union U%d = %s | Leaf" % (i, nxt))
+        out.append({"seed": 0, "idx": 970000, "dirty": [], "cfg": {"enable_custom_operations": True}, "props": [prop], "tier": tier, "corpus": "scale/type-chain-%d" % n,
+                    "_sdl": "\n\n".join(parts) + "\n", "_queries": "query Walk { start { id label0 next { __typename ... on T1 { id label1 } ... on Leaf { id } } } }",
+                    "_features": ["scale.type_chain_through_unions", "config.custom_ops"], "_no_regen": True})
+    if prop == "C09":
+        n, k = 48, 24
+        parts = ["type Query {\n  find(filter: I0, kind: Kind): Boolean\n}", "enum Kind {\n  A\n  B\n}", "enum Unused {\n  X\n}", "input NeverUsed {\n  a: Int\n}"]
+        for i in range(n):
+            fields = ["  f%d_%d: I%d" % (i, j, (i + 1 + j) % n) for j in range(k)]
+            parts.append("input I%d {\n  n%d: Int\n%s\n}" % (i, i, "\n".join(fields)))
+        out.append({"seed": 0, "idx": 970001, "dirty": [], "cfg": {}, "tier": tier, "corpus": "scale/input-graph-%dx%d" % (n, k),
+                    "_sdl": "\n\n".join(parts) + "\n", "_queries": "query Find($filter: I0, $kind: Kind) { find(filter: $filter, kind: $kind) }",
+                    "_features": ["scale.input_graph_1000plus_references"]})
+    return out
+
+
 def fraggraph_cases(prop: str, tier: str, seed: int, n: int) -> List[Dict[str, Any]]:
     """Fragment usage graphs over a fixed schema (gen/fraggraph.py): which fragments are base classes somewhere, only unpacked, or reached only through another fragment
     differs from operation to operation of one document; every document also runs with its definitions reversed."""
@@ -927,6 +954,7 @@ def run_shared(prop: str, tier: str, seed: int, n_cases: int, rule: str, floors:
 
     if prop in ("C01", "C02", "C04", "C05"):
         cases.extend(corpus_cases(prop, tier))
+        cases.extend(scale_cases(prop, tier))
         cases.extend(fraggraph_cases(prop, tier, seed, {"C01": 60, "C02": 120, "C04": 80, "C05": 40}[prop] * (8 if tier == "thorough" else 1)))
 
     def on_result(case, res):
